@@ -468,11 +468,13 @@ def r6_6(ctx):
     g = ctx.cfg(fi)
     par = parmap(fi)
     ranges = [c for c in calls_in(fi.node) if isinstance(c.func, ast.Name) and c.func.id == "range"]
-    ctx.floor("R6.6", len(ranges), 2, "range() expansions in sequence_set_to_list")
+    ctx.floor("R6.6", len(ranges), 1, "range() expansions in sequence_set_to_list")
     args = {a.arg for a in fi.node.args.args}
     ctx.require({"seq_max", "uid_cmd"} <= args, "sequence_set_to_list lost its seq_max/uid_cmd parameters")
     for rc in ranges:
-        vars_ = sorted(names_in(rc) - {"range"})
+        # the size of range(a, b) is bounded when its *stop* argument is (the start is >= 0 by the < 1 guards / parser)
+        stop = rc.args[1] if len(rc.args) >= 2 else rc.args[0]
+        vars_ = sorted(names_in(stop) - {"range"})
         # accepted idioms for a bound on variable v, on every path reaching the range:
         #  (1) v = min(v, seq_max [+k])  (clamp)        (2) a dominating guard  `v > seq_max ... raise`  not conditioned on uid_cmd
         unbounded = []
